@@ -539,11 +539,11 @@ def _build_decay_modes(
     mother = next(iter(dc_dict.keys()))
     dms = dc_dict[mother]
 
-    for dm in dms:
-        # Single decay chains are allowed, which means a particle cannot have 2 decay modes
-        if mother in decay_modes:
-            raise RuntimeError("Input is not a single decay chain!") from None
+    # Single decay chains are allowed, which means a particle cannot have 2 decay modes
+    if len(dms) > 1:
+        raise RuntimeError("Input is not a single decay chain!") from None
 
+    for dm in dms:
         try:
             fs = dm["fs"]
         except Exception as e:
@@ -553,7 +553,7 @@ def _build_decay_modes(
 
         assert isinstance(fs, list)
         if _has_no_subdecay(fs):
-            decay_modes[mother] = DecayMode.from_dict(dm)
+            _add_decay_mode(decay_modes, mother, DecayMode.from_dict(dm))
         else:
             d = deepcopy(dm)
             fs_local = d["fs"]
@@ -567,7 +567,17 @@ def _build_decay_modes(
                     _build_decay_modes(decay_modes, fs[i])
             # Create the decay mode now that none of its particles
             # has a sub-decay
-            decay_modes[mother] = DecayMode.from_dict(d)
+            _add_decay_mode(decay_modes, mother, DecayMode.from_dict(d))
+
+
+def _add_decay_mode(
+    decay_modes: dict[str, DecayMode], mother: str, decay_mode: DecayMode
+) -> None:
+    # The same decaying particle may occur several times in a single chain,
+    # but always with the same decay mode
+    if mother in decay_modes and decay_modes[mother].to_dict() != decay_mode.to_dict():
+        raise RuntimeError("Input is not a single decay chain!") from None
+    decay_modes[mother] = decay_mode
 
 
 T = typing.TypeVar("T")
